@@ -155,7 +155,7 @@ def _install_angular():
             fp = (_h(ent[0]), _h(ent[1])) if ent is not None else None
             pa = bool(ent is not None and np.shares_memory(self.points, ent[0]))
             wa = bool(ent is not None and np.shares_memory(self.weights, ent[1]))
-            full = st[0] == 1 or st[0] % 16 == 0 or fp != st[1] or pa or wa
+            full = ent is None or st[0] == 1 or st[0] % 16 == 0 or fp != st[1] or pa or wa
             if not full:
                 # the cached arrays are bit-identical to the ones verified before and nothing is shared:
                 # compare the instance with the cache entry only (cheap equality), not with the file again
@@ -325,12 +325,17 @@ def run_suite(trace_dir, record, tests=None, workers=12, timeout=1500):
     for f in glob.glob(os.path.join(trace_dir, "events-*.ndjson")):
         os.remove(f)
     env = dict(os.environ)
+    env.pop("PYTHONWARNINGS", None)     # some repository tests count the warnings they provoke
     env.update({"GRID_VERIF": "1", "GRID_VERIF_RECORD": record, "GRID_VERIF_TRACE_DIR": str(trace_dir),
                 "PYTHONPATH": "/verif:/repo/src", "PYTHONHASHSEED": "0"})
-    cmd = ["/venv/bin/python", "-m", "pytest", "-q", "-p", "no:cacheprovider", "-p", "vf.record", "--timeout=900",
-           "-n", str(workers), "-x" if False else "-q"] + (tests or ["src/grid/tests"])
+    cmd = ["/venv/bin/python", "-m", "pytest", "-q", "-rf", "-p", "no:cacheprovider", "-p", "vf.record", "--timeout=900",
+           "-n", str(workers)] + (tests or ["src/grid/tests"])
     p = subprocess.run(cmd, cwd="/repo", env=env, capture_output=True, text=True, timeout=timeout)
-    tail = (p.stdout or "").strip().splitlines()[-1:] or [""]
+    lines = (p.stdout or "").strip().splitlines()
+    tail = lines[-1:] or [""]
+    failed = [ln[:200] for ln in lines if ln.startswith("FAILED")]
+    if failed:
+        tail = [tail[0] + " | " + "; ".join(failed[:8])]
     events = []
     for f in sorted(glob.glob(os.path.join(trace_dir, "events-*.ndjson"))):
         with open(f) as fh:
